@@ -1,0 +1,16 @@
+//go:build verif
+
+package network
+
+// VC14Visited returns the ids of the base nodes whose loop-detection mark (NNode.visited) is set,
+// in BaseNodes order. Read-only; used by the verification harness (property C14) to report marks
+// a depth query left behind. It is never used to decide the outcome of a comparison of results.
+func VC14Visited(n *Network) []int {
+	ids := make([]int, 0)
+	for _, nd := range n.allNodes {
+		if nd.visited {
+			ids = append(ids, nd.Id)
+		}
+	}
+	return ids
+}
